@@ -60,6 +60,18 @@ def showPos (s : State) (id : Nat) : String :=
 def clObs (s : State) (r : Result) (ids : List Nat) : String :=
   s!"{showRes r} P=[{",".intercalate (ids.map fun i => s!"{i}:{showPos s i}")}] next={s.nextPos} Pnew={showPos s (s.nextPos - 1)}"
 
+def parseDKind (k : String) : Option DKind :=
+  match k.toList with
+  | ['x'] => some .other
+  | ['o'] => some .osmo
+  | 'g' :: n => (String.ofList n).toNat?.map DKind.gamm
+  | 'c' :: n => (String.ofList n).toNat?.map DKind.cl
+  | _ => none
+
+/-- all listed locks (message ops that reach several locks) -/
+def lkListObs (s : State) (r : Result) (ids : List Nat) : String :=
+  s!"{showRes r} L=[{",".intercalate (ids.map fun i => s!"{i}:{showLock s i}")}] last={s.lastLock}"
+
 def parseKind : String → Option WKind
   | "full" => some .full
   | "part" => some .part
@@ -86,8 +98,25 @@ def stepAuth (st : State) (op : String) (args : List String) : State × String :
   | "lk.new", [id, owner, amt, dur, sfAsset] =>
     match id.toNat?, amt.toInt?, dur.toInt? with
     | some id, some amt, some dur =>
-      ({ st with locks := aset id ⟨owner, "", dur, false, amt, sfAsset = "1", .none⟩ st.locks, lastLock := id }, "ok")
+      ({ st with locks := aset id { owner := owner, recv := "", dur := dur, unlocking := false, amt := amt,
+                                    sfAsset := sfAsset = "1", sf := .none } st.locks, lastLock := id }, "ok")
     | _, _, _ => (st, "bad-op")
+  -- a lock with the kind of its denom (`o` uosmo, `g<pool>` gamm shares, `c<pool>` CL shares, `x` other)
+  | "lk.newk", [id, owner, amt, dur, sfAsset, kind] =>
+    match id.toNat?, amt.toInt?, dur.toInt?, parseDKind kind with
+    | some id, some amt, some dur, some dk =>
+      ({ st with locks := aset id { owner := owner, recv := "", dur := dur, unlocking := false, amt := amt,
+                                    sfAsset := sfAsset = "1", sf := .none, dk := dk } st.locks, lastLock := id }, "ok")
+    | _, _, _, _ => (st, "bad-op")
+  -- a position whose underlying lock is `lock` (announced with `lk.newk`)
+  | "cl.newl", [id, owner, pool, lock] =>
+    match id.toNat?, pool.toNat?, lock.toNat? with
+    | some id, some pool, some lock =>
+      ({ st with positions := aset id { owner := owner, pool := pool, locked := true, lockId := lock } st.positions, nextPos := id + 1 }, "ok")
+    | _, _, _ => (st, "bad-op")
+  -- the address got a validator-set preference / a staking delegation (environment: the creator messages
+  -- MsgSetValidatorSetPreference / MsgDelegate act on nothing but the sender's own record)
+  | "vp.set", [a] => ({ st with delegators := if a ∈ st.delegators then st.delegators else a :: st.delegators }, "ok")
   | "lk.last", [n] =>
     match n.toNat? with
     | some n => ({ st with lastLock := n }, "ok")
@@ -95,7 +124,7 @@ def stepAuth (st : State) (op : String) (args : List String) : State × String :
   | "cl.new", [id, owner, pool, locked] =>
     match id.toNat?, pool.toNat? with
     | some id, some pool =>
-      ({ st with positions := aset id ⟨owner, pool, locked = "1"⟩ st.positions, nextPos := id + 1 }, "ok")
+      ({ st with positions := aset id { owner := owner, pool := pool, locked := locked = "1" } st.positions, nextPos := id + 1 }, "ok")
     | _, _ => (st, "bad-op")
   -- tokenfactory
   | "tf.create", [a, sub] =>
@@ -175,6 +204,47 @@ def stepAuth (st : State) (op : String) (args : List String) : State × String :
     match id.toNat?, x.toInt? with
     | some id, some x => run (.sfUndelegateUnbond (unq a) id x) fun s r => lkObs s r id
     | _, _ => (st, "bad-op")
+  -- messages of the full inventory
+  | "lk.beginall", [a, ids] =>
+    match csvNat ids with
+    | some ids => run (.lkBeginAll (unq a)) fun s r => lkListObs s r ids
+    | none => (st, "bad-op")
+  | "sf.convert", [a, id, v] =>
+    match id.toNat? with
+    | some 0 => (st, "bad-op")      -- lock id <= 0 addresses the sender's liquid shares, not an owned object
+    | some id => run (.sfConvert (unq a) id (unq v)) fun s r => lkObs s r id
+    | none => (st, "bad-op")
+  | "sf.migrate", [a, id] =>
+    match id.toNat? with
+    | some id => run (.sfMigrate (unq a) id) fun s r => lkObs s r id
+    | none => (st, "bad-op")
+  | "sf.addcl", [a, id, x, y, n] =>
+    match id.toNat?, x.toInt?, y.toInt?, n.toInt? with
+    | some id, some x, some y, some n =>
+      run (.sfAddToCL (unq a) id x y n) fun s r => clObs s r [id] ++ " " ++ lkObs s r s.lastLock
+    | _, _, _, _ => (st, "bad-op")
+  | "sf.unpoolallow", [ids] =>
+    match csvNat ids with
+    | some ids => ({ st with unpoolAllowed := ids }, "ok")
+    | none => (st, "bad-op")
+  | "sf.unpool", [a, pool, ids] =>
+    match pool.toNat?, csvNat ids with
+    | some pool, some ids =>
+      if ownsGammLock st (unq a) pool then (st, "bad-op") else
+      run (.sfUnpoolNoLock (unq a) pool) fun s r => lkListObs s r ids
+    | _, _ => (st, "bad-op")
+  | "gm.pool", [id, c] =>
+    match id.toNat? with
+    | some id => ({ st with controllers := aset id (unq c) st.controllers }, "ok")
+    | none => (st, "bad-op")
+  | "gm.scaling", [a, id, k] =>
+    match id.toNat? with
+    | some id => run (.gmScaling (unq a) id (k = "1")) fun _ r => showRes r
+    | none => (st, "bad-op")
+  | "vp.bonded", [a, id] =>
+    match id.toNat? with
+    | some id => run (.vpDelegateBonded (unq a) id) fun s r => lkObs s r id
+    | none => (st, "bad-op")
   | _, _ => (st, "bad-op")
 
 end OsmoVerif.Auth
